@@ -139,3 +139,88 @@ func c19Retune(c *Ctx) {
 		}
 	}
 }
+
+// c19SlowHandler: receive activity is stamped when a frame ARRIVES, not when the application is done with it. The peer
+// answers every probe, but just before each answer it sends a data message whose (inline) handler runs longer than
+// T6: the probe times out while the receive goroutine is still inside the handler, yet a frame did arrive after the
+// probe went out, so the failure must be credited and the link kept (suppression on, threshold 2 and 3). Added after
+// seeded change C19f-2 (the stamp moved behind dispatchFrame).
+func c19SlowHandler(c *Ctx) {
+	for _, act := range []bool{true, false} {
+		for _, k := range []int{2} {
+			var bad string
+			var info map[string]any
+			for _, scale := range []int{1, 3, 9} {
+				bad, info = c19SlowHandlerRun(act, k, scale)
+				if bad == "" {
+					break
+				}
+				c.Stat("slow-handler:retry")
+			}
+			c.Count(fmt.Sprintf("slow-handler|%v|%d", act, k), true)
+			c.Stat("slow-handler-timelines")
+			if bad != "" {
+				kind, what := "property", "live-link-dropped"
+				if len(bad) > 6 && bad[:6] == "setup:" {
+					kind, what = "correspondence", "timeline-setup-failed"
+				}
+				c.Violate(kind, what, bad, info)
+			}
+		}
+	}
+}
+
+func c19SlowHandlerRun(active bool, k, scale int) (string, map[string]any) {
+	unit := time.Duration(60*scale) * time.Millisecond
+	ep, err := NewEndpoint(active, []hsms.ConnOption{
+		hsms.WithLinktestInterval(unit), hsms.WithT6(unit), hsms.WithLinktestFailThreshold(k),
+		hsms.WithLinktestSuppression(true), hsms.WithT3(30 * time.Second),
+	})
+	if err != nil {
+		return "setup:" + err.Error(), nil
+	}
+	defer ep.Shutdown()
+	// the handler outlasts exactly two probe cycles (probe at 0 and 2u, expiries at u and 3u; it returns at 4u, before
+	// the third probe can expire): with the arrival stamp the first expiry is credited and the second is the first of a
+	// new run, so threshold 2 is never reached
+	ep.Conn.AddDataMessageHandler(func(_ *hsms.DataMessage, _ hsms.SECS2Endpoint) { time.Sleep(4 * unit) })
+	if err := ep.Open(); err != nil {
+		return "setup:" + err.Error(), nil
+	}
+	p, _, err := ep.EstablishSelected(5 * time.Second)
+	if err != nil {
+		return "setup:" + err.Error(), nil
+	}
+	defer p.Close()
+	m := ep.Conn.ControlMetrics()
+	info := map[string]any{"role_active": active, "threshold": k, "t6_ms": unit.Milliseconds(), "interval_ms": unit.Milliseconds(), "handler_ms": (4 * unit).Milliseconds()}
+	probes := 0
+	deadline := time.Now().Add(time.Duration(4*k+8) * 3 * unit)
+	for probes < 2*k+2 && time.Now().Before(deadline) {
+		f, err := p.Recv(time.Until(deadline))
+		if err == errPeerClosed {
+			info["probes"] = probes
+			info["linktest_err"], info["credited"] = m.LinktestErrCount(), m.LinktestCreditedCount()
+			return fmt.Sprintf("the peer answered every probe and a data frame arrived after each probe went out (its handler ran %v, T6 = %v), yet the linktest disconnected after %d probes (err=%d credited=%d)",
+				4*unit, unit, probes, m.LinktestErrCount(), m.LinktestCreditedCount()), info
+		}
+		if err != nil {
+			break
+		}
+		if f.SType() == 5 {
+			probes++
+			if probes == 1 {
+				_ = p.Send(mkFrame(0xFFFF, 6, 11, 0, 0, sysOf(0x58000001), nil)) // the one data message, just before the first answer
+			}
+			_ = p.Send(mkFrame(0xFFFF, 0, 0, 0, 6, f.Sys(), nil))
+		}
+	}
+	info["probes"] = probes
+	if probes == 0 {
+		return "setup:no probe arrived", info
+	}
+	if p.IsClosed() {
+		return "the link was dropped although the peer answered every probe", info
+	}
+	return "", info
+}
